@@ -382,23 +382,50 @@ def rule_functions_below_modules(repo, chk, R):
     af = ra.func("assign_registers")
     cfg, rd = fn_ctx(af)
     wa = f"{ra.path}:{af.lineno} in assign_registers"
-    ok_mod, detail = False, []
+    ok_mod, detail, found = False, [], False
+
+    def all_modules(e, at, depth=0):
+        """data.modules / its keys, possibly through set() / sorted() / list() and locals"""
+        if depth > 5:
+            return False
+        t = norm(e)
+        if t in ("data.modules", "data.modules.keys()"):
+            return True
+        if isinstance(e, ast.Call) and norm(e.func) in ("set", "sorted", "list", "tuple", "frozenset") and len(e.args) == 1 and not e.keywords:
+            return all_modules(e.args[0], at, depth + 1)
+        if isinstance(e, ast.Name):
+            ids_ = live_ids(cfg, at)
+            ds_ = rd.at(ids_[0], e.id) if ids_ else []
+            return bool(ds_) and all(d_.kind == "assign" and not d_.index and d_.value is not None and all_modules(d_.value, cfg.nodes[d_.node].ast, depth + 1) for d_ in ds_)
+        return False
     for lp in ast.walk(af):
-        if isinstance(lp, ast.For) and norm(lp.iter) == "called_from":
-            for c in ast.walk(lp):
-                if isinstance(c, ast.Call) and isinstance(c.func, ast.Attribute) and c.func.attr in ("update",) and "called_from" in norm(c.func.value) and c.args:
-                    a = c.args[0]
-                    detail.append(norm(a))
-                    ids = live_ids(cfg, c)
-                    full = False
-                    if isinstance(a, ast.Name) and ids:
-                        ds = rd.at(ids[0], a.id)
-                        full = bool(ds) and all(d.kind == "assign" and d.value is not None and norm(d.value) in ("set(data.modules.keys())", "set(data.modules)", "data.modules.keys()") for d in ds)
-                    elif norm(a) in ("data.modules", "data.modules.keys()", "set(data.modules.keys())"):
-                        full = True
-                    # no per-function condition besides skipping the main region
-                    extra = [norm(t) for t, p in (guard_atoms(cfg, ids[0]) if ids else []) if not (isinstance(t, ast.Compare) and any(isinstance(k, ast.Constant) and k.value == "" for k in t.comparators))]
-                    ok_mod = full and not extra
+        if not isinstance(lp, ast.For):
+            continue
+        it = norm(lp.iter)
+        if it not in ("called_from", "called_from.items()", "called_from.keys()", "called_from.values()"):
+            continue
+        keyvar = lp.target.id if isinstance(lp.target, ast.Name) and it in ("called_from", "called_from.keys()") else (
+            lp.target.elts[0].id if isinstance(lp.target, ast.Tuple) and isinstance(lp.target.elts[0], ast.Name) else None)
+        valvar = lp.target.elts[1].id if isinstance(lp.target, ast.Tuple) and len(lp.target.elts) == 2 and isinstance(lp.target.elts[1], ast.Name) else (
+            lp.target.id if isinstance(lp.target, ast.Name) and it == "called_from.values()" else None)
+        for c in ast.walk(lp):
+            if isinstance(c, ast.Call) and isinstance(c.func, ast.Attribute) and c.func.attr in ("update",) and c.args \
+                    and ("called_from" in norm(c.func.value) or (valvar and norm(c.func.value) == valvar)):
+                found = True
+                a = c.args[0]
+                detail.append(norm(a))
+                ids = live_ids(cfg, c)
+                full = all_modules(a, c)
+                # no per-function condition besides skipping the main region
+                extra = []
+                for t, p in (guard_atoms(cfg, ids[0]) if ids else []):
+                    skip_main = isinstance(t, ast.Compare) and any(isinstance(k, ast.Constant) and k.value == "" for k in t.comparators) or \
+                        isinstance(t, ast.Name) and t.id == keyvar
+                    if not skip_main:
+                        extra.append(norm(t))
+                ok_mod = full and not extra
+    if not found:
+        raise AnalysisError("assign_registers: the statement that makes every function a callee of the module scopes (called_from[..].update(<modules>)) was not found")
     chk.judge(R, "register_assignment:assign_registers:every function scope is a callee of every library module scope", ok_mod,
               f"functions are marked as called from {detail or 'no module scope'}: expected the set of ALL library modules for every function. Module-level values "
               f"live for the whole program, so a function that skips one module's scope can be given a register that holds that module's global",
